@@ -53,6 +53,50 @@ Proof.
   destruct (draw_r RG gm (RqMvn (r_beta m) cov (length x))) as [smp gm']. reflexivity.
 Qed.
 
+(* ---- scale=True: the arm's own StandardScaler -------------------------------------------------------------------- *)
+(* the first fit of an arm: the scaler is fitted on the arm's rows, and the regression is the ridge regression of the
+   STANDARDISED rows *)
+Theorem ridge_fit_scaled_normal_equations (d : nat) (m m' : @ridge R G) (x : mat (R:=R)) (y : vec (R:=R)) :
+  r_scaler m = Some None -> ridge_fit N d m x y = Some m' ->
+  let sc := scaler_fit N d x in let z := scaler_transform N sc x in
+  r_scaler m' = Some (Some sc) /\
+  r_A m' = madd N (r_A m) (xtx N d z) /\ r_Xty m' = vadd N (r_Xty m) (xty N d z y) /\
+  inverse N d (r_A m') = Some (r_Ainv m') /\ r_beta m' = mat_vec N (r_Ainv m') (r_Xty m').
+Proof.
+  intros Hs H sc z. unfold ridge_fit in H. rewrite Hs in H. fold sc in H. fold z in H.
+  destruct (inverse N d (madd N (r_A m) (xtx N d z))) as [ainv|] eqn:Ei; [|discriminate].
+  injection H as <-. simpl. auto.
+Qed.
+
+(* what the scaler holds: per column the mean and the population standard deviation of the arm's rows (0 / 1 for a column whose
+   deviation does not exceed 1e-6: fix_small_variance), and a row is standardised column by column *)
+Theorem scaler_fit_spec (d : nat) (x : mat (R:=R)) :
+  let cols := transpose N d x in
+  sc_mean (scaler_fit N d x) = map (col_mean N) cols /\
+  sc_scale (scaler_fit N d x) = map (fun c => snd (fix_scale N (col_var N c (col_mean N c)))) cols.
+Proof.
+  intros cols. unfold scaler_fit. fold cols. cbn [sc_mean sc_scale]. split; [reflexivity|].
+  rewrite map_map. clear. induction cols as [|c t IH]; [reflexivity|]. cbn [map map2]. f_equal. exact IH.
+Qed.
+
+Theorem scaler_transform_spec (sc : @scaler R) (x : mat (R:=R)) :
+  scaler_transform N sc x = map (fun row => map2 (fun xm s => div N (sub N (fst xm) (snd xm)) s) (combine row (sc_mean sc)) (sc_scale sc)) x.
+Proof. reflexivity. Qed.
+
+(* queries are standardised with the arm's own scaler before the arm's coefficients are applied *)
+Theorem lingreedy_expectation_scaled (s : @lin R A G) (m : @ridge R G) (sc : @scaler R) g (x : mat (R:=R)) :
+  l_kind s = RRidge -> r_scaler m = Some (Some sc) ->
+  ridge_predict N RG s m g x = (map (fun row => dot N row (r_beta m)) (scaler_transform N sc x), m, g).
+Proof. intros Hk Hs. unfold ridge_predict. rewrite Hk, Hs. reflexivity. Qed.
+
+Theorem linucb_expectation_scaled (s : @lin R A G) (m : @ridge R G) (sc : @scaler R) g (x : mat (R:=R)) :
+  l_kind s = RUcb -> r_scaler m = Some (Some sc) ->
+  ridge_predict N RG s m g x =
+  (map (fun row => add N (dot N row (r_beta m))
+                     (mul N (l_alpha s) (sqrt N (nsum N (map2 (mul N) (map (fun c => dot N row c) (transpose N (length row) (r_Ainv m))) row)))))
+       (scaler_transform N sc x), m, g).
+Proof. intros Hk Hs. unfold ridge_predict. rewrite Hk, Hs. reflexivity. Qed.
+
 End LinFacts.
 
 (* ================================ C04 ================================ *)
